@@ -740,6 +740,8 @@ class Interp:
     def unop(self, op, v):
         if hasattr(v, "sym_unop"):
             return v.sym_unop(self, op)
+        if isinstance(v, Opaque):
+            return Opaque(f"{op}({v.why})")
         if op == "neg":
             if isinstance(v, (SV, CV)):
                 return -v
@@ -1145,6 +1147,9 @@ class Interp:
     def getitem(self, obj, key):
         if isinstance(obj, Opaque):
             return Opaque(f"{obj.why}[..]")
+        if isinstance(obj, ClassVal) or (isinstance(obj, Native) and obj.name in ("dict", "list", "set", "tuple", "type")) \
+                or (hasattr(obj, "typ") and hasattr(obj, "fn")):
+            return obj      # Generic[...] / dict[str, int] style subscription of a class
         if isinstance(obj, PDict):
             if isinstance(key, SV):
                 hit = self._sym_key_in(key, [(k, obj.presence(k)) for k in obj.e])
@@ -1157,6 +1162,10 @@ class Interp:
                     out = obj.raw(k) if out is None else self.merge_values(self.cmpop(ast.Eq(), key, k), obj.raw(k), out)
                 return out
             p = obj.presence(key)
+            if p is False and getattr(obj, "factory", None) is not None:
+                v = self.call(obj.factory, [], {})     # collections.defaultdict
+                obj.set(key, v)
+                return v
             if p is False or not (p is True or self.ctx.expect(p, tag=f"key {key!r} present")):
                 raise PyRaise(KeyError(key))
             return obj.raw(key)
@@ -1440,6 +1449,13 @@ class Interp:
                 raise EngineError(f"generator function {f.key} is outside the subset")
             try:
                 self.ex_block(f.node.body, env)
+            except EngineError:
+                # frame-tracking mode: a callee outside the subset is acceptable when the syntactic frame analysis shows
+                # that it cannot store into anything reachable from its arguments (its result is then an unknown value)
+                fb = getattr(self, "frame_fallback", None)
+                if fb is not None and not isinstance(f.node, ast.Lambda) and self.call_depth > 1 and fb(self, f):
+                    return Opaque(f"{f.key}()")
+                raise
             except _Return as r:
                 return r.value
             r = env.local.get("__returned__", False)
@@ -1531,13 +1547,26 @@ class Interp:
     def ev_GeneratorExp(self, node, env):
         return self.ev_ListComp(node, env)
 
+    def _opaque_comp(self, node, env):
+        if getattr(self, "opaque_loops", False):
+            first = self.ev(node.generators[0].iter, env)
+            if isinstance(first, (Opaque, SV)):
+                return Opaque(f"comprehension@{node.lineno}")
+        return None
+
     def ev_SetComp(self, node, env):
+        oc = self._opaque_comp(node, env)
+        if oc is not None:
+            return oc
         out = PSet()
         cenv = self._comp_env(env)
         self._comp(node.generators, cenv, lambda e, g: out.add(self.ev(node.elt, e), g), allow_guard=True)
         return out if not out.is_concrete() else out.to_set()
 
     def ev_DictComp(self, node, env):
+        oc = self._opaque_comp(node, env)
+        if oc is not None:
+            return oc
         out = PDict()
         cenv = self._comp_env(env)
 
@@ -1985,6 +2014,19 @@ class Interp:
             except (_Break, _Continue):
                 raise EngineError("break/continue in a loop over rows")
             return
+        if isinstance(it, (Opaque, SV)) and getattr(self, "opaque_loops", False):
+            if isinstance(it, SV):
+                it = Opaque(f"iterable {str(it.z)[:40]}")
+            # loop over an unknown iterable (frame-tracking mode): the body is executed once with unknown loop
+            # variables -- every store the body can make is recorded (stores do not depend on the iteration count)
+            self._assign_opaque(node.target, Opaque(f"element of {it.why}"), env)
+            try:
+                self.ex_block(node.body, env)
+            except (_Break, _Continue):
+                pass
+            self._settle_partial_return(env)
+            self.ex_block(node.orelse, env)
+            return
         items = self.iterate(it)
         broke = False
         for x in items:
@@ -1999,6 +2041,13 @@ class Interp:
             self._settle_partial_return(env)
         if not broke:
             self.ex_block(node.orelse, env)
+
+    def _assign_opaque(self, target, val, env):
+        if isinstance(target, (ast.Tuple, ast.List)):
+            for e in target.elts:
+                self._assign_opaque(e, Opaque(val.why), env)
+        else:
+            self.assign(target, val, env)
 
     def _settle_partial_return(self, env):
         r = env.local.get("__returned__", False)
